@@ -314,6 +314,45 @@ def check_scheme_kwargs(ctx: Ctx, rule: str, option: str, only_builders=None):
             )
 
 
+def check_scheme_independence(ctx: Ctx, rule: str):
+    """What a scheme receives does not depend on the schemes requested before it: add_schemes is evaluated for every ordered
+    pair of Scheme members, and the keyword arguments of the second call are those of that scheme requested alone (a
+    dict of keyword arguments kept across the iterations leaks `delta` / `stiff_states` into a later explicit Euler)."""
+    from sa import av
+
+    add0 = ctx.sm.func("cli/utils.py", "add_schemes")
+    enum = enum_values(ctx, "schemes.py", "Scheme")
+    A = av.AV(ctx.sm, inline=lambda callee: callee.rel.endswith("cli/utils.py"))
+
+    def calls_for(members):
+        val, _env = A.returned(add0, {add0.params[1]: ("list", tuple(("enum", "Scheme", k, v) for k, v in members))})
+        if av.has_unk(val):
+            return None
+        cs = [c for c in av.find_all(val, "mcall") if c[2] == "scheme"]
+        # the list is built in order: the calls appear in the value in request order
+        return cs
+
+    items = sorted(enum.items())
+    alone = {}
+    for k, v in items:
+        cs = calls_for([(k, v)])
+        alone[k] = cs[0][4] if cs and len(cs) == 1 else None
+    n = 0
+    for k1, v1 in items:
+        for k2, v2 in items:
+            if k1 == k2 or alone[k1] is None or alone[k2] is None:
+                continue
+            cs = calls_for([(k1, v1), (k2, v2)])
+            key = add0.key(f"independent::{v1}->{v2}")
+            if cs is None or len(cs) != 2:
+                ctx.undecided(rule, key, f"add_schemes for [{v1}, {v2}] is not understood", add0.where())
+                continue
+            n += 1
+            ctx.check(cs[1][4] == alone[k2], rule, key, f"{v2} after {v1} receives what it receives alone", f"add_schemes: requested after '{v1}', scheme '{v2}' receives {[kk for kk, _ in cs[1][4]]} instead of {[kk for kk, _ in alone[k2]]}: keyword arguments are carried over from the scheme before it (generation fails with a TypeError, or a scheme silently gets another scheme's option)", add0.where())
+    if not n:
+        ctx.undecided(rule, add0.key("independent"), "add_schemes could not be evaluated for pairs of schemes", add0.where())
+
+
 # ---------------------------------------------------------------------------
 # purity helpers
 
